@@ -576,3 +576,24 @@ Print Assumptions C03_solo_nonvacuous.
 Print Assumptions C03_nested_nonvacuous.
 Print Assumptions C03_can_finish_nonvacuous.
 Print Assumptions C03_growth_hypothesis_needed.
+
+(* ---------------- fairness on the Map machine (proofs/XS_fair.v) ----------------
+   On XMachineS a thread that spins on a bucket spin lock is ENABLED and its steps change only its own program counter,
+   so "every enabled step makes progress" is false and MapOf's fairness argument does not apply as it stands.
+   C03_fair_progress (unconditional: no growth hypothesis, any visitors): from every reachable state in which some thread
+   of ths is not done, every weakly fair infinite schedule executes, after finitely many spinning / void steps, a step of a
+   thread of ths that is enabled and NOT spinning -- the lock holder, the resizeMu holder, the resizer or the thread itself
+   is always such a thread (helpful-thread scheme): no livelock on the spin locks.
+   C03_fair_termination_readonly_partial: for workloads of Load, Size and Range with silent visitors (Ranges still contend on
+   the spin locks) every fair schedule finishes every call.  The general statement for writers needs the measure of X_fair
+   ported to this machine (interface: XS_fair.s_fair_cond); it is NOT proved -- for writers, termination on Map is
+   C03_solo_completion / C03_can_always_finish. *)
+From CacheV.proofs Require XS_fair.
+Definition C03_fair_progress := @XS_fair.s_fair_progress_proof.
+Definition C03_fair_progress_instance := @XS_fair.s_machine_fair_progress.
+Definition C03_fair_termination_readonly_partial := @XS_fair.s_fair_termination_readonly.
+Definition C03_fair_nonvacuous := XS_fair.s_fair_nonvacuous.
+Print Assumptions C03_fair_progress.
+Print Assumptions C03_fair_progress_instance.
+Print Assumptions C03_fair_termination_readonly_partial.
+Print Assumptions C03_fair_nonvacuous.
